@@ -223,6 +223,7 @@ async fn run_script(
     req: &mut Request<'_, Reader, Writer>,
     script: Vec<u128>,
     ev: Arc<Mutex<Args>>,
+    wake_flag: Arc<Flag>,
 ) -> io::Result<ExitStatus> {
     let push = |v: Vec<u128>| ev.lock().expect("ev").push(v);
     let mut i = 0;
@@ -327,6 +328,29 @@ async fn run_script(
                 }
                 i += 2;
             },
+            11 => {
+                // poll a read ONCE; a pending read future is abandoned; then look at is_writeable()
+                let mut buf = vec![0u8; a(1) as usize];
+                let p = std::future::poll_fn(|cx| Poll::Ready(Pin::new(&mut *req).poll_read(cx, &mut buf))).await;
+                let wr = u128::from(req.is_writeable());
+                match p {
+                    Poll::Ready(Ok(n)) => {
+                        push(vec![11, 1, n as u128, wr]);
+                        push(nums(&buf[..n]));
+                    },
+                    Poll::Ready(Err(e)) => {
+                        push(vec![11, 0, errkind(&e), wr]);
+                        push(vec![]);
+                    },
+                    Poll::Pending => {
+                        // the wake-up that may have been requested belongs to the abandoned future
+                        wake_flag.0.store(false, Ordering::SeqCst);
+                        push(vec![11, 2, 0, wr]);
+                        push(vec![]);
+                    },
+                }
+                i += 2;
+            },
             8 => {
                 push(vec![8]);
                 return Ok(exit_status(a(1), a(2)).expect("exit status"));
@@ -346,6 +370,7 @@ fn mk_handler(
     scripts: Vec<Vec<u128>>,
     ev2: Arc<Mutex<Args>>,
     polls: Arc<std::sync::atomic::AtomicUsize>,
+    wake_flag: Arc<Flag>,
 ) -> impl for<'a, 'b> FnMut(&'a mut Request<'b, Reader, Writer>) -> BoxFuture<'a, io::Result<ExitStatus>> {
     let mut served = 0usize;
     move |req| {
@@ -366,7 +391,7 @@ fn mk_handler(
                 e.push(nums(&v));
             }
         }
-        Box::pin(run_script(req, script, ev3))
+        Box::pin(run_script(req, script, ev3, wake_flag.clone()))
     }
 }
 
@@ -400,7 +425,7 @@ fn conn_run(a: &Args) -> Args {
             }
         };
         let pollc = Arc::new(std::sync::atomic::AtomicUsize::new(0));
-        let handler = mk_handler(scripts, ev.clone(), pollc.clone());
+        let handler = mk_handler(scripts, ev.clone(), pollc.clone(), flag.clone());
         let mut task: Option<Pin<Box<dyn Future<Output = ()>>>> =
             Some(Box::pin(token.run(Reader(world.clone()), Writer(world.clone()), handler)));
         let mut shutdown_fut = None;
